@@ -73,16 +73,26 @@ SpenderOf(o) == CHOOSE t \in DOMAIN conf : o \in Ins(t)
 Live(t) == /\ t \in DOMAIN txs /\ ~Confirmed(t) /\ txs[t].ok
            /\ \A o \in Ins(t) :
                  /\ ~Spent(o)
-                 /\ (o[1] \in DOMAIN txs /\ ~Confirmed(o[1])) => \A oo \in Ins(o[1]) : ~Spent(oo)
+                 /\ (o[1] \in DOMAIN txs /\ ~Confirmed(o[1])) => (txs[o[1]].ok /\ \A oo \in Ins(o[1]) : ~Spent(oo))
 \* A claim is the monitor's business as far as the channel's outputs go: if the wallet's fee input
 \* of a bump transaction is used up by another of the node's own transactions, the claim request
 \* still stands and is re-funded at the next bump -- such a claim counts as live.
+\* (After a reorganisation a claim may hang on a transaction that is not confirmed any more: it is alive
+\*  only as long as that parent can still come back -- not forgotten, none of its inputs spent otherwise.)
 LiveClaim(t) == /\ t \in DOMAIN txs /\ ~Confirmed(t) /\ txs[t].ok
-                /\ \A o \in ChanIns(t) : ~Spent(o)
+                /\ \A o \in ChanIns(t) :
+                      /\ ~Spent(o)
+                      /\ (o[1] \in DOMAIN txs /\ ~Confirmed(o[1])) => (txs[o[1]].ok /\ \A oo \in Ins(o[1]) : ~Spent(oo))
 HasLiveClaim(n, o) == \E t \in DOMAIN txs : txs[t].by = n /\ ~txs[t].sweep /\ o \in ChanIns(t) /\ LiveClaim(t)
 
 \* ------------------------------------------------------------ the confirmed commitment
 HasCom == com.tx # 0
+\* A reorganisation may take the commitment transaction out of the chain again (Rewind); until it is
+\* back nothing below it can confirm and the node owes nothing: every obligation is stated for the
+\* time the commitment IS confirmed.  When it confirms again -- at the same height or another one -- the
+\* obligations are back in full at the next checkpoint ("re-issues those claims ... until they are
+\* buried"): claims the node dropped at the disconnection have to be made again.
+ComConf == HasCom /\ com.tx \in DOMAIN conf
 Outs == IF HasCom THEN ToSet(com.outs) ELSE {}
 OP(r) == <<com.tx, r.v>>
 IsHtlc(r) == r.k \in {"offered", "received"}
@@ -95,6 +105,12 @@ Main(n, r) == (n = com.owner /\ r.k = "to_local") \/ (n # com.owner /\ r.k = "to
 Victim == 1 - com.owner
 \* the outputs of transaction t that continue an HTLC of the commitment (second-stage outputs:
 \* output i belongs to input i, BOLT-3 / SIGHASH_SINGLE)
+\* With option_anchors the counterparty's signature on an HTLC transaction is SIGHASH_SINGLE|ANYONECANPAY:
+\* the cheater may put several HTLC inputs into one transaction, add inputs of its own before, between
+\* and after them and add outputs wherever no HTLC input stands, so the numbers of inputs and outputs are
+\* unrelated; what consensus fixes is only that the output at the position of an HTLC input is that
+\* HTLC's delayed, revocable output.  (Both signatures commit to nLockTime: HTLC-success, locktime 0, and
+\* HTLC-timeout, locktime = expiry, cannot share a transaction; nor can timeouts of different expiries.)
 SecondStage(t) == {<<t, k - 1>> : k \in {j \in 1..Len(txs[t].ins) : txs[t].ins[j][1] = com.tx /\ j <= txs[t].nout}}
 \* everything the cheater could still turn into money: its balance, every HTLC output, and the
 \* outputs of the second-stage transactions it got confirmed
@@ -104,7 +120,7 @@ CheaterClaimable ==
 
 Tiny(o) == \E r \in Outs : OP(r) = o /\ IsHtlc(r) /\ r.amt < Uneconomic
 JusticeCovers ==
-  (phase = "check" /\ HasCom /\ com.revoked /\ Victim \in par.live) =>
+  (phase = "check" /\ ComConf /\ com.revoked /\ Victim \in par.live) =>
      G6(\A o \in CheaterClaimable : Spent(o) \/ HasLiveClaim(Victim, o) \/ Tiny(o))
 
 \* "re-issues those claims with adequate fees until they are buried": the cheater's delayed outputs (its
@@ -121,7 +137,7 @@ CheaterDelayed ==
 IssueHeights(n, o) == {txs[t].bh : t \in {u \in DOMAIN txs : txs[u].by = n /\ ~txs[u].sweep /\ ~txs[u].onrb /\ o \in ChanIns(u)}}
 Gap(x) == IF x <= 3 THEN 1 ELSE IF x <= 15 THEN 3 ELSE 15
 JusticeCadence ==
-  (phase = "check" /\ HasCom /\ com.revoked /\ Victim \in par.live /\ Victim \notin gaveup) =>
+  (phase = "check" /\ ComConf /\ com.revoked /\ Victim \in par.live /\ Victim \notin gaveup) =>
      G6(\A o \in CheaterDelayed :
           (~Spent(o) /\ IssueHeights(Victim, o) # {}) =>
              LET a == Max(IssueHeights(Victim, o))
@@ -133,7 +149,7 @@ Reported(n, t) == \A k \in 0..(txs[t].nout - 1) : (txs[t].outwal[k + 1] \/ <<t, 
 SweptAll(n) == \A o \in handed[n + 1] : Spent(o) /\ txs[SpenderOf(o)].by = n /\ txs[SpenderOf(o)].sweep
 
 CheaterKeepsNothing ==
-  (phase = "final" /\ HasCom /\ com.revoked /\ Victim \in par.live) =>
+  (phase = "final" /\ ComConf /\ com.revoked /\ Victim \in par.live) =>
      G6(/\ \A o \in {x \in CheaterClaimable : ~Tiny(x) \/ Spent(x)} :
               /\ Spent(o)
               /\ txs[SpenderOf(o)].by \in {Victim, Cheater}
@@ -146,7 +162,7 @@ CheaterKeepsNothing ==
 Entitled(n, r) == \/ (Outbound(n, r) /\ height >= r.exp)
                   \/ (Inbound(n, r) /\ r.hash \in known[n + 1] /\ height < r.exp)
 NoEntitledOutputIdle ==
-  (phase = "check" /\ HasCom /\ ~com.revoked) =>
+  (phase = "check" /\ ComConf /\ ~com.revoked) =>
      G7(\A n \in par.live : \A r \in {x \in Outs : IsHtlc(x)} :
           (~Spent(OP(r)) /\ r.amt >= Uneconomic /\ Entitled(n, r)) => HasLiveClaim(n, OP(r)))
 
@@ -155,7 +171,7 @@ NoEntitledOutputIdle ==
 \* broadcasting fails"), every such output is covered again by a broadcast or a bump request --
 \* a claim broadcast once and then forgotten (never re-announced, never fee-bumped) does not count.
 RebroadcastCovers ==
-  (phase = "check" /\ HasCom /\ ~com.revoked /\ rb.n \in par.live) =>
+  (phase = "check" /\ ComConf /\ ~com.revoked /\ rb.n \in par.live) =>
      G7(\A r \in {x \in Outs : IsHtlc(x)} :
           (~Spent(OP(r)) /\ r.amt >= Uneconomic /\ Entitled(rb.n, r)) => OP(r) \in rb.cov)
 
@@ -181,13 +197,13 @@ OwedHigh(n) == FoldSet(LAMBDA r, acc : acc + r.amt, 0,
                       {r \in Outs : Mine(n, r) /\ ~HandedOver(n, r) /\ (~TakenByPeer(n, r) \/ PeerSpendFresh(n, r))})
 
 BalancesAddUp ==
-  (phase = "check" /\ HasCom /\ ~com.revoked) =>
+  (phase = "check" /\ ComConf /\ ~com.revoked) =>
      G7(\A n \in par.live : BalSum(n) >= OwedLow(n) /\ BalSum(n) <= OwedHigh(n))
 
 \* --- the end of an honest close: nothing left, everything won is reported and swept
 Won(n, r) == Spent(OP(r)) /\ txs[SpenderOf(OP(r))].by = n
 Drained ==
-  (phase = "final" /\ HasCom /\ ~com.revoked) =>
+  (phase = "final" /\ ComConf /\ ~com.revoked) =>
      G7(\A n \in par.live :
           \* (an inbound HTLC whose preimage never turned up is not owed; it stays listed until
           \*  the peer's timeout claim is buried)
@@ -217,24 +233,36 @@ Bcast(t, rec) ==
              ELSE rb
   /\ IF rec.dup
        THEN UNCHANGED txs
-       ELSE /\ t \notin DOMAIN txs
+       \* (a transaction the network had forgotten in a reorganisation may be announced again)
+       ELSE /\ IF t \in DOMAIN txs THEN ~txs[t].ok /\ txs[t].old ELSE TRUE
             /\ txs' = [x \in DOMAIN txs \cup {t} |-> IF x = t THEN [rec EXCEPT !.onrb = (rec.by = rb.n)] ELSE txs[x]]
             /\ rec.by \in par.live =>
-                 \* OnlyValidFinal
+                 \* OnlyValidFinal (the inputs exist: on the best chain, or in unconfirmed ancestors that can still
+                 \* confirm -- not in a transaction that lost an input to a confirmed competitor)
                  /\ G7(rec.valid /\ rec.final) /\ G6(rec.valid /\ rec.final)
+                 \* (a competitor confirmed in the newest block does not count yet: with some delivery styles the
+                 \*  node announces the new tip before the block's transactions, and requests made in between are
+                 \*  answered by the application a moment later)
+                 /\ LET Exists == \A k \in 1..Len(rec.ins) :
+                                    (rec.ins[k][1] \in DOMAIN txs /\ ~Confirmed(rec.ins[k][1]))
+                                       => \A oo \in Ins(rec.ins[k][1]) : Spent(oo) => conf[SpenderOf(oo)] >= height
+                    IN G7(Exists) /\ G6(Exists)
                  \* FeeMonotone: a re-issued claim of the same outpoints never pays a lower feerate
                  \* (a transaction that re-spends an output which already has a confirmed spend is not a
                  \*  re-issue of a pending claim; such stale broadcasts are counted, not judged -- see report)
                  /\ LET cins == {rec.ins[k] : k \in {j \in 1..Len(rec.ins) : ~rec.wal[j]}}
                         Mono == (\A o \in cins : ~Spent(o)) =>
                                  \A e \in DOMAIN txs :
-                                   (txs[e].by = rec.by /\ ~txs[e].sweep /\ ChanIns(e) # {} /\ ChanIns(e) = cins)
+                                   (txs[e].by = rec.by /\ ~txs[e].sweep /\ ~txs[e].old /\ ChanIns(e) # {} /\ ChanIns(e) = cins)
                                      => rec.feerate + FeeTol(rec.feerate) >= txs[e].feerate
                         \* AdequateOnRebroadcast: a self-funded claim re-issued in answer to
                         \* rebroadcast_pending_claims ("detecting substantial mempool feerate changes") pays what
                         \* the fee estimator says now, or -- if the claimed value cannot afford that -- the feerate
                         \* that spends half of it (package.rs compute_fee_from_spent_amounts)
+                        \* (not the commitment transaction itself -- it spends the funding output, transaction 1 --
+                        \*  whose fee was fixed when it was signed and is topped up through its anchor)
                         Adequate == (/\ rec.by = rb.n /\ cins # {} /\ \A j \in 1..Len(rec.wal) : ~rec.wal[j]
+                                     /\ \A o \in cins : o[1] # 1
                                      /\ rec.inval >= Uneconomic
                                      /\ \A o \in cins : ~Spent(o)
                                      /\ \E e \in DOMAIN txs : txs[e].by = rec.by /\ ~txs[e].sweep /\ ChanIns(e) = cins)
@@ -256,8 +284,11 @@ Bump(n, c, target, ops) ==
   /\ rb' = IF n = rb.n THEN [rb EXCEPT !.cov = @ \cup ops] ELSE rb
   /\ UNCHANGED <<par, height, txs, conf, com, known, handed, bal, starved, est, gaveup>>
 
+\* (after a reorganisation took the commitment out of the chain a different, competing commitment
+\*  transaction may confirm in its place; from then on the obligations are about that one)
 Commit(c) ==
-  /\ ~HasCom /\ com' = c /\ phase' = "op"
+  /\ IF HasCom THEN com.gone /\ c.tx # com.tx ELSE TRUE
+  /\ com' = c /\ phase' = "op"
   /\ known' = c.known
   /\ UNCHANGED <<par, height, txs, conf, handed, bal, starved, asked, est, gaveup>> /\ rb' = NoRb
 
@@ -270,7 +301,14 @@ Block(h, ids) ==
   /\ ids \subseteq DOMAIN txs
   /\ conf' = [x \in DOMAIN conf \cup ids |-> IF x \in DOMAIN conf THEN conf[x] ELSE h]
   /\ starved' = <<starved[1] \/ LeftOut(0, ids), starved[2] \/ LeftOut(1, ids)>>
-  /\ UNCHANGED <<par, txs, com, known, handed, bal, asked, est, gaveup>> /\ rb' = NoRb
+  \* (the commitment transaction may confirm a second time, after a reorganisation: its height follows)
+  \* (claims made for its earlier confirmation, or while it was out of the chain, are a closed chapter:
+  \*  no feerate comparison with them)
+  /\ LET back == HasCom /\ com.tx \in ids /\ com.gone IN
+       /\ com' = IF HasCom /\ com.tx \in ids THEN [com EXCEPT !.h = h, !.gone = FALSE] ELSE com
+       /\ txs' = IF back THEN [t \in DOMAIN txs |-> [txs[t] EXCEPT !.old = TRUE]] ELSE txs
+       /\ asked' = IF back THEN <<>> ELSE asked
+  /\ UNCHANGED <<par, known, handed, bal, est, gaveup>> /\ rb' = NoRb
 
 Idle(from, h) ==
   /\ from = height + 1 /\ h >= from /\ height' = h /\ phase' = "check"
@@ -287,12 +325,27 @@ Preimage(n, hash) ==
   /\ known' = [known EXCEPT ![n + 1] = @ \cup {hash}] /\ phase' = "op"
   /\ UNCHANGED <<par, height, txs, conf, com, handed, bal, starved, asked, est, gaveup>> /\ rb' = NoRb
 
-\* the tip is reorganised away down to height h; no transaction of the run was confirmed above h
-\* (reorganisations that unconfirm transactions are C11's subject)
-Rewind(h) ==
-  /\ h < height /\ \A t \in DOMAIN conf : conf[t] <= h
+\* The chain is reorganised away down to height h.  Transactions confirmed above h are unconfirmed
+\* again (they may confirm again later, at any height, or never).  `ev`: transactions the network has
+\* forgotten in the course of it -- unconfirmed descendants of transactions that left the chain, which no
+\* mempool is obliged to keep; they will never confirm unless broadcast again.  What was handed over in
+\* SpendableOutputs events but is not on the chain any more has to be handed over again once it is back
+\* (and buried); a feerate comparison across such a reorganisation is not made (`old`).
+Rewind(h, ev) ==
+  /\ h < height
+  /\ LET gone == {t \in DOMAIN conf : conf[t] > h}
+         stay == DOMAIN conf \ gone
+     IN /\ ev \subseteq DOMAIN txs \ stay
+        /\ conf' = [t \in stay |-> conf[t]]
+        /\ txs' = [t \in DOMAIN txs |->
+                     IF t \in ev THEN [txs[t] EXCEPT !.ok = FALSE, !.old = TRUE]
+                     ELSE IF gone # {} THEN [txs[t] EXCEPT !.old = TRUE] ELSE txs[t]]
+        /\ handed' = <<{o \in handed[1] : o[1] \notin gone \cup ev}, {o \in handed[2] : o[1] \notin gone \cup ev}>>
+        /\ asked' = IF gone = {} THEN asked ELSE <<>>
+        /\ starved' = IF gone = {} THEN starved ELSE <<TRUE, TRUE>>
+        /\ com' = IF HasCom /\ com.tx \in gone THEN [com EXCEPT !.gone = TRUE] ELSE com
   /\ height' = h /\ phase' = "op" /\ rb' = NoRb
-  /\ UNCHANGED <<par, txs, conf, com, known, handed, bal, starved, asked, est, gaveup>>
+  /\ UNCHANGED <<par, known, bal, est, gaveup>>
 
 \* node n's fee estimator now says v
 Feerate(n, v) ==
